@@ -1,9 +1,10 @@
 """Rule instances shared by several properties."""
 import ast
+import re
 
 from ..program import AnalysisError, walk_local, dotted
 from ..analysis import Spec, src, const_value, class_const
-from ..rules import (GWF, EXC, mpt, need_func, stores_to, norm_bool,
+from ..rules import (cond_branches, GWF, EXC, mpt, need_func, stores_to, norm_bool,
                      chained_assign_value, strip_wrappers)
 
 BYPASS_HELPERS = ('bypass_incompatible_branch', 'bypass_peer_approval',
@@ -518,8 +519,8 @@ def per_author_options(prog, an, rep, pid):
               'for another one' % detail, detail=detail)
     # unknown names are rejected
     c = an.cfg(f)
-    bad = an.branch_nodes(f, lambda e: src(e) == 'elem in self.BYPASS_LIST',
-                          False)
+    bad = cond_branches(an, f, re.compile(r'^\w+ in self\.BYPASS_LIST$'),
+                        False)
     okr = False
     from .c12 import _first_exit
     for b in bad:
